@@ -177,3 +177,26 @@ ADDENDA3 = {
 }
 for _k, _t in ADDENDA3.items():
     CLAIMS[_k]["text"] = CLAIMS[_k]["text"] + " " + _t
+
+# Clauses added after the fifth round (DESIGN.md §3, "Rules added after the fifth round")
+ADDENDA4 = {
+ "C01": "Also: times are compared with IsZero/Equal only.",
+ "C02": "Also: no FS method positions a handle; sequential reads/writes store the offset on every path after their positioned call.",
+ "C03": "Also: a mount point is a valid name other than the root (R06.4 analysis).",
+ "C05": "Also: two-name helpers translate with both names; the mount translator never compares the inner path with the caller's name; failing paths above a base/root are reported as \".\".",
+ "C06": "Also: the root file system is read only inside the route resolution; the cross-mount copy truncates its destination.",
+ "C07": "Also: view types never write their receiver; the translator's namespace typing.",
+ "C08": "Also: helpers assert the own capability before MountFS; Create's fallback uses os.Create's flags.",
+ "C10": "Also: the cache copy is created with and chmod-ed to the source's mode; the directory handle's Seek computes its cursor from the caller's offset.",
+ "C11": "Also: only ErrNotExist of the cache look-up leads to a fill.",
+ "C12": "Also: the buffer pool never provisions more buffers than its channel holds.",
+ "C13": "Also: the buffer-pool bound (unpacking terminates).",
+ "C14": "Also: a non-nil error parameter is not lost; memoised (value, error) pairs are returned together; a whole-look-up failure is reported for every path.",
+ "C15": "Also: no blob method returns with its mutex held; in-memory records are immutable once stored; two handles grow a file from one stale length (known finding).",
+ "C16": "Also: a paging ReadDir advances its cursor only for a page it returns.",
+ "C17": "Also: a second Close fails.",
+ "C19": "Also: no method returns with the mutex held; View and Slice refuse the same arguments.",
+ "C20": "Also: the tree comparison always walks the file system under test; every TestFile<Op> scenario calls <Op> on a handle.",
+}
+for _k, _t in ADDENDA4.items():
+    CLAIMS[_k]["text"] = CLAIMS[_k]["text"] + " " + _t
